@@ -21,6 +21,8 @@
 
 #include <algorithm>
 #include <csetjmp>
+#include <csignal>
+#include <unistd.h>
 #include <iterator>
 #include <type_traits>
 #if defined(__has_include)
@@ -49,7 +51,7 @@ static constexpr bool checked_build = false;
 
 static report rep;
 static std::uint64_t g_vectors = 0, g_nontrivial = 0;
-static std::jmp_buf g_jb;
+static sigjmp_buf g_jb;
 static const char* volatile g_assert_expr = nullptr;
 static volatile long g_assert_line = 0;
 // context of the call in flight (for the signature of an assertion / mismatch)
@@ -63,9 +65,30 @@ namespace sbepp
 {
     g_assert_expr = expr;
     g_assert_line = line;
-    std::longjmp(g_jb, 1);
+    siglongjmp(g_jb, 1);
 }
 } // namespace sbepp
+
+// a crash while executing a vector is an observation about the code under
+// test, not a reason to lose the run: report it as a mismatch of that vector
+static void on_crash(int sig)
+{
+    g_assert_line = sig;
+    siglongjmp(g_jb, 2);
+}
+
+static void install_crash_handlers()
+{
+    struct sigaction sa;
+    std::memset(&sa, 0, sizeof(sa));
+    sa.sa_handler = on_crash;
+    sigemptyset(&sa.sa_mask);
+    sa.sa_flags = SA_NODEFER;
+    sigaction(SIGSEGV, &sa, nullptr);
+    sigaction(SIGBUS, &sa, nullptr);
+    sigaction(SIGFPE, &sa, nullptr);
+    sigaction(SIGALRM, &sa, nullptr); // watchdog: a vector that does not finish
+}
 
 static const char* prim(int w)
 {
@@ -1167,6 +1190,7 @@ static void replay_vector(const json& v)
 
 int main(int argc, char** argv)
 {
+    install_crash_handlers();
     if(argc >= 3 && std::string(argv[1]) == "replay")
     {
         for(int a = 2; a < argc; a++)
@@ -1180,11 +1204,14 @@ int main(int argc, char** argv)
                     {
                         g_nontrivial++;
                     }
-                    if(setjmp(g_jb) == 0)
+                    const int jr = sigsetjmp(g_jb, 1);
+                    if(jr == 0)
                     {
+                        alarm(60);
                         replay_vector(v);
+                        alarm(0);
                     }
-                    else
+                    else if(jr == 1)
                     {
                         const std::string k = v["k"].get<std::string>();
                         rep.mismatch(
@@ -1194,6 +1221,16 @@ int main(int argc, char** argv)
                                 + g_op + ", arg " + std::to_string(static_cast<long long>(g_arg))
                                 + "): " + (g_assert_expr ? g_assert_expr : "?") + " at sbepp.hpp:"
                                 + std::to_string(static_cast<long>(g_assert_line)),
+                            v);
+                    }
+                    else
+                    {
+                        const std::string k = v["k"].get<std::string>();
+                        rep.mismatch(
+                            "crash/" + k + "/" + std::string(g_op) + "/"
+                                + pair_sig(v["bw"].get<int>(), v["nw"].get<int>()),
+                            std::string("signal ") + std::to_string(static_cast<long>(g_assert_line)) + " while executing "
+                                + g_op + " (arg " + std::to_string(static_cast<long long>(g_arg)) + ")",
                             v);
                     }
                 });
@@ -1226,13 +1263,16 @@ int main(int argc, char** argv)
         else                                                                          \
             flat<C12_NS::messages::zB##BB##N##NN<char>>::record(r, len, out, bw, nw, "z"); \
     }
-            if(setjmp(g_jb) == 0)
+            const int jr = sigsetjmp(g_jb, 1);
+            if(jr == 0)
             {
                 C12_PAIRS(C12_REC)
             }
             else
             {
-                out << json({{"e", "Assert"}, {"expr", g_assert_expr ? g_assert_expr : "?"}}).dump() << "\n";
+                // no such event in the spec: the episode is rejected
+                out << json({{"e", jr == 1 ? "Assert" : "Crash"}, {"expr", g_assert_expr ? g_assert_expr : "?"}}).dump()
+                    << "\n";
             }
         }
         return 0;
